@@ -770,6 +770,26 @@ class Harness:
             fams = self.sc.get("exc_family") or ("plain",)
             x = mk_script_exc(fams[i % len(fams)], o[1], i, o[2] if len(o) > 2 else None)
             rec.objs[i] = x
+            ch = self.sc.get("exc_chain")
+            if ch:
+                # the failure was raised while another error was being handled, or `from` one: a fallback that failed after an inner
+                # circuit rejected the primary, a domain error wrapping the timeout underneath.  It is still THIS failure that counts.
+                try:
+                    if ch == "open_context":
+                        x.__context__ = CircuitOpenError("inner circuit open")
+                    elif ch == "open_cause":
+                        x.__cause__ = CircuitOpenError("inner circuit open")
+                    elif ch == "timeout_cause":
+                        x.__cause__ = TimeoutError("inner call timed out")
+                    elif ch == "abort_context":
+                        x.__context__ = AbortRetryError()
+                    elif ch == "scripted_cause":
+                        # `raise DomainError(...) from low_level_error`: the low-level error is one the classifier knows well
+                        x.__cause__ = ScriptExc("TRANSIENT" if o[1] != "TRANSIENT" else "RATE_LIMIT", -1, None)
+                    if x.__cause__ is not None:
+                        x.rv_cause = x.__cause__
+                except Exception:  # noqa: BLE001  (frozen exception objects)
+                    pass
             raise x
         if kind == "exc_same":
             # a client that caches its error object: the SAME instance is raised again on consecutive attempts
